@@ -887,7 +887,11 @@ class Interp:
                 parts.append(str(v.value))
             else:
                 x = self.eval(st, v.value, fr)
+                if isinstance(x, SInt) and v.conversion == -1 and (v.format_spec is None or all(isinstance(c, ast.Constant) and c.value == "d" for c in v.format_spec.values)):
+                    parts.append(x)  # `{n}` / `{n:d}` of a symbolic int: its decimal rendering, kept symbolic (SFmt)
+                    continue
                 if isinstance(x, Sym) or isinstance(x, (FnVal, SExc)):
+                    parts = [p for p in parts if isinstance(p, str)]
                     parts.append("<sym>")
                     return ("fstring", tuple(parts))  # opaque text (messages)
                 spec = ""
@@ -898,6 +902,8 @@ class Interp:
                 elif v.conversion == ord("s"):
                     x = str(x)
                 parts.append(format(x, spec))
+        if any(not isinstance(p, str) for p in parts):
+            return V.SFmt(parts)
         return "".join(parts)
 
     def e_Lambda(self, st, e, fr):
@@ -982,6 +988,8 @@ class Interp:
         seq_types = (tuple, SSeq, LRef)
         if isinstance(a, seq_types) or isinstance(b, seq_types):
             return self.seq_binop(st, op, a, b)
+        if (isinstance(a, V.SFmt) or isinstance(b, V.SFmt)) and isinstance(op, ast.Add) and isinstance(a, (str, V.SFmt)) and isinstance(b, (str, V.SFmt)):
+            return a + b
         if a is None or b is None:
             raise PyRaise(SExc(TypeError, ("unsupported operand type(s) for NoneType",)))
         if is_num(a) and is_num(b):
@@ -1437,8 +1445,16 @@ class Interp:
         if not uses_target:
             cfr = Frame(fr.fn, fr.mod, parent=fr)
             cfr.self_obj = fr.self_obj
+            serial0 = Q.LRef.serial_counter
             r.const_elt = self.eval(st, e.elt, cfr)
             r.getter = lambda i, v=r.const_elt: v
+            if type(r.const_elt) is LRef and r.const_elt.serial > serial0:
+                # the element expression builds a new list on every evaluation: `[[c] * w for _ in range(h)]` is a
+                # nested list of h distinct rows with equal content -> rows held by value (see seqs.fresh_seq)
+                row = Q.row_value(r.const_elt)
+                r.const_elt = row
+                r.shape = S.ListOf(getattr(row, "shape", None))
+                r.getter = lambda i, v=row: v
         return r
 
     def _sym_filter(self, st, e, fr, seq):
